@@ -333,6 +333,7 @@ func FormsFor(p Path) []Form {
 			return out
 		})...)
 		fs = append(fs, fh("p-func:Copy", "plib", "plib.Copy("+conv+", []int{58, 57})"), fh("p-func:IncIdx", "plib", "plib.IncIdx("+conv+", 1)"))
+		fs = append(fs, fh("p-retype-method:Ints.Poke", "plib", "plib.Ints("+conv+").Poke(0, 57)"), fh("p-retype-method:Ints.Poke-subslice", "plib", "plib.Ints("+conv+"[1:]).Poke(0, 57)"))
 		if p.LV {
 			fs = append(fs, fl("assign-nil", "E = nil"), fl("assign-append", "E = append(E, 56)"), fl("assign-reslice", "E = E[:1]"))
 			if p.Kind == "ints" {
@@ -343,7 +344,8 @@ func FormsFor(p Path) []Form {
 		fs = append(fs, f("alias-index-store", "s := E; s[0] = 'z'"), f("copy-from-string", `copy(E, "zz")`), f("copy-from-bytes", "copy(E[1:], []byte{1, 2})"),
 			f("append-alias-within-cap", "s := E[:1]; s = append(s, 'y'); _ = s"), f("append-beyond-len-within-cap", "s := E; s = append(s, 'x'); _ = s"),
 			f("append-string-spread", `_ = append(E[:0], "pwn"...)`), f("swap-elems", "E[0], E[1] = E[1], E[0]"),
-			fh("p-func:CopyBytes", "plib", `plib.CopyBytes(E, "qq")`), fh("p-func:SetByte", "plib", "plib.SetByte(E, 0, 'w')"))
+			fh("p-func:CopyBytes", "plib", `plib.CopyBytes(E, "qq")`), fh("p-func:SetByte", "plib", "plib.SetByte(E, 0, 'w')"),
+			fh("p-retype-method:Buf.Poke", "plib", "plib.Buf(E).Poke(0, 'v')"), fh("p-retype-method:Buf.Poke-subslice", "plib", "plib.Buf(E[1:]).Poke(0, 'v')"))
 		if p.LV {
 			fs = append(fs, fl("assign-nil", "E = nil"), fl("assign-conv", `E = []byte("pwn")`))
 		}
@@ -388,6 +390,7 @@ func FormsFor(p Path) []Form {
 		fs = append(fs, helpers("m_si", func(h, recv string) []Form {
 			return []Form{fh(hname(recv)+":SetMap", h, recv+".SetMap("+conv+`, "new", 43)`), fh(hname(recv)+":DelMap", h, recv+".DelMap("+conv+`, "a")`)}
 		})...)
+		fs = append(fs, fh("p-retype-method:SMap.Put", "plib", "plib.SMap("+conv+`).Put("new", 42)`))
 		if p.LV {
 			fs = append(fs, fl("assign-nil", "E = nil"))
 			if p.Kind == "m_si" {
